@@ -179,7 +179,7 @@ mod imp {
             if i == builtins_at {
                 script.push((2, 0));
             }
-            script.push((if src.chance(40) { 1 } else { 0 }, src.below(names.len())));
+            script.push((if src.chance(40) { 1 } else if src.flip() { 3 } else { 0 }, src.below(names.len())));
         }
         if !script.iter().any(|x| x.0 == 2) {
             script.push((2, 0));
@@ -194,6 +194,21 @@ mod imp {
                     0 => {
                         let tag = format!("{}#{}", names[*n], k);
                         rt.register_function(names[*n], Box::new(move |args: &[Rcvar], _: &mut Context<'_>| Ok(Rcvar::new(Variable::String(format!("{}/{}", tag, args.len()))))));
+                    }
+                    3 => {
+                        // a user function declared with a signature (variadic, any type)
+                        let tag = format!("{}#{}", names[*n], k);
+                        let sig = jmespath::functions::Signature::new(vec![], Some(jmespath::functions::ArgumentType::Any));
+                        rt.register_function(
+                            names[*n],
+                            Box::new(jmespath::functions::CustomFunction::new(
+                                sig,
+                                Box::new(move |args: &[Rcvar], _: &mut Context<'_>| {
+                                    let seen: usize = args.iter().map(|a| a.to_string().len()).sum();
+                                    Ok(Rcvar::new(Variable::String(format!("{}/{}/{}", tag, args.len(), seen))))
+                                }),
+                            )),
+                        );
                     }
                     1 => {
                         let _ = rt.deregister_function(names[*n]);
@@ -249,7 +264,7 @@ mod imp {
                 .collect();
             hs.into_iter().map(|h| h.join().is_err()).collect::<Vec<bool>>().into_iter().any(|x| x)
         });
-        let hist: Vec<String> = script.iter().map(|(op, n)| match op { 0 => format!("register {}", names[*n]), 1 => format!("deregister {}", names[*n]), _ => "register_builtin_functions".to_string() }).collect();
+        let hist: Vec<String> = script.iter().map(|(op, n)| match op { 0 => format!("register {}", names[*n]), 3 => format!("register {} (CustomFunction with a signature)", names[*n]), 1 => format!("deregister {}", names[*n]), _ => "register_builtin_functions".to_string() }).collect();
         let case = json!({"registrations": hist, "expressions": exprs, "document": doc_text, "threads": n_threads});
         if panicked {
             return Err(Failure::new("custom-runtime", "panic-in-thread", "a worker thread panicked".into(), case));
